@@ -266,7 +266,7 @@ func (v *value) MarshalJSON() ([]byte, error) {
 
 	b, err := json.Marshal(e)
 	if err != nil {
-		return nil, fmt.Errorf("can't marshal value %v to json: %w", e, err)
+		return nil, fmt.Errorf("can't marshal value of type %T to json: %w", e, err)
 	}
 
 	return b, nil
